@@ -27,11 +27,22 @@ Definition wf_graph_b (g : graph) : bool :=
   && nodup_b triple_eqb (triples g).
 Definition wf_graph (g : graph) : Prop := wf_graph_b g = true.
 
-(* the weaker notion C12 preserves without any side condition on constants:
-   every source is a string variable owning exactly one instance triple *)
-Definition sources_ok_b (g : graph) : bool :=
-  forallb (fun t => is_astr (tsrc t) && is_var g (tsrc t)
-                    && Nat.eqb (inst_count (triples g) (tsrc t)) 1) (triples g).
+(* the invariant every transformation preserves (C12): wf_graph without the
+   pairwise-distinctness clause, which dereify_edges and indicate_branches can
+   break by re-creating a triple that is already there *)
+Definition node_graph_b (g : graph) : bool :=
+  forallb (fun t => has_colon (trole t)) (triples g)
+  && forallb (fun v => is_astr v && Nat.eqb (inst_count (triples g) v) 1) (variables g).
+Definition node_graph (g : graph) : Prop := node_graph_b g = true.
+
+(* no role of the reification table is (or becomes, once Graph() has added the
+   colon) the instance role *)
+Definition colon_inst (r : str) : bool := str_eqb (ensure_colon r) INSTANCE.
+Definition table_inst_free (m : model) : bool :=
+  forallb (fun '(r, c, s, t) => negb (colon_inst r) && negb (colon_inst s) && negb (colon_inst t)) (reifs m).
+
+(* every variable is a [str] (indicate_branches asserts it) *)
+Definition vars_are_str (g : graph) : Prop := forall x, is_var g x = true -> is_astr x = true.
 
 (* ---- markers ------------------------------------------------------------- *)
 (* dict invariant (a Python dict has no duplicate keys) and sanity of markers:
@@ -89,7 +100,7 @@ Definition row_shape_ok (m : model) (r : str) : bool :=
   | [] => true
   | (c, sr, tr) :: _ =>
       negb (str_eqb r INSTANCE) && negb (str_eqb sr INSTANCE) && negb (str_eqb tr INSTANCE)
-      && has_colon sr && has_colon tr
+      && has_colon sr && has_colon tr && negb (str_eqb sr tr)
       && negb (is_role_reifiable m sr) && negb (is_role_reifiable m tr)
   end.
 (* dereify gives back r when the reified triples are met in the WRITTEN order
@@ -121,3 +132,54 @@ Definition table_ok_for (m : model) (g : graph) : bool :=
   forallb (fun t => row_shape_ok m (trole t)
                     && (if reify_swaps g t then row_inv_ok m (trole t) else row_plain_ok m (trole t)))
           (triples g).
+
+(* ---- reify_attributes: contracting the new nodes ------------------------------- *)
+(* a pair  (s, r, v) (v, :instance, c)  with v not among the old names is
+   contracted to (s, r, c) *)
+Fixpoint contract_attrs (old : list atom) (ts : list triple) : list triple :=
+  match ts with
+  | [] => []
+  | t1 :: rest =>
+      match rest with
+      | t2 :: rest' =>
+          if negb (is_inst t1) && negb (mem atom_eqb (ttgt t1) old)
+             && is_inst t2 && atom_eqb (tsrc t2) (ttgt t1)
+          then (tsrc t1, trole t1, ttgt t2) :: contract_attrs old rest'
+          else t1 :: contract_attrs old rest
+      | [] => [t1]
+      end
+  end.
+
+(* ---- indicate_branches: which triples get a top-role triple in front ------------ *)
+Definition indicates (g : graph) (t : triple) : bool :=
+  match get_pushed_variable g t with
+  | Some v => atom_eqb v (ttgt t) || (atom_eqb v (tsrc t) && is_var g (ttgt t))
+  | None => false
+  end.
+
+(* ---- connectivity, declaratively --------------------------------------------- *)
+(* the atoms reachable from the top along edges, in either direction *)
+Inductive reach (g : graph) : atom -> Prop :=
+| reach_top : forall t, graph_top g = Some t -> reach g t
+| reach_eq : forall a b, reach g a -> atom_eqb a b = true -> reach g b
+| reach_fwd : forall t, In t (triples g) -> is_edge g t = true -> reach g (tsrc t) -> reach g (ttgt t)
+| reach_bwd : forall t, In t (triples g) -> is_edge g t = true -> reach g (ttgt t) -> reach g (tsrc t).
+(* every variable hangs on the top *)
+Definition connectedP (g : graph) : Prop := forall x, is_var g x = true -> reach g x.
+
+(* ---- programs of transformations (C12: every composition) ------------------------ *)
+Inductive xform := XReifyEdges | XDereifyEdges | XReifyAttributes | XIndicateBranches.
+Definition apply_xform (m : model) (x : xform) (g : graph) : outcome graph :=
+  match x with
+  | XReifyEdges => reify_edges m g
+  | XDereifyEdges => dereify_edges m g
+  | XReifyAttributes => reify_attributes g
+  | XIndicateBranches => indicate_branches m g
+  end.
+Fixpoint run_xforms (m : model) (prog : list xform) (g : graph) : outcome graph :=
+  match prog with
+  | [] => Ok g
+  | x :: prog' => g1 <- apply_xform m x g ;; run_xforms m prog' g1
+  end.
+(* the order in which the command-line tool applies them (penman/__main__.py _process_in) *)
+Definition cli_order : list xform := [XReifyEdges; XDereifyEdges; XReifyAttributes; XIndicateBranches].
